@@ -577,7 +577,11 @@ func (ps *PushContext) servicesForExactHosts(configNamespace string,
 			}
 			// HostnameAndNamespace contains all services regardless of exportTo, so visibility is reapplied.
 			if !ps.IsServiceVisible(svc, configNamespace) {
-				continue
+				// The index keeps a single service per (hostname, namespace). When that one is hidden from
+				// configNamespace, another service with the same hostname and namespace (e.g. a second
+				// ServiceEntry with a different exportTo) may still be exported to it, so the index cannot
+				// answer: fall back to the scan of the services exported to configNamespace.
+				return ps.servicesExportedToNamespace(configNamespace)
 			}
 			candidates = append(candidates, svc)
 		}
